@@ -597,6 +597,21 @@ theorem geoMethod_degree_array (mode : GeoMode) (D : Nat → Nat → Int) (eps :
       = deg st'.A n v :=
   ((geoMethod_invariants mode D eps n A iterations draws st' sym lf supp h).2.2.2.1 v).symm
 
+/-- **link lengths, whole method**: the links of the input network and of the rewired network
+(each listed once) can be matched one to one with length differences of at most
+(number of rewirings)·`inaccuracy` ≤ `iterations`·`inaccuracy`. -/
+theorem geoMethod_link_lengths (mode : GeoMode) (D : Nat → Nat → Int) (eps : Int) (n : Nat)
+    (A : Adj) (iterations : Nat) (draws : List (Nat × Nat)) (st' : GeoSt)
+    (h : geoMethod mode D eps n A iterations draws = some st') :
+    ∃ σ τ, BijOn (edgeList n A).length σ τ ∧ st'.edges.length = (edgeList n A).length ∧
+      ∀ p e, (edgeList n A)[p]? = some e → ∃ e', st'.edges[σ p]? = some e' ∧
+        closeBy ((st'.i : Int) * eps) (len D e) (len D e') := by
+  unfold geoMethod at h
+  obtain ⟨σ, τ, b, l, m⟩ := geoRun_link_lengths _ iterations draws _ st' h
+  refine ⟨σ, τ, b, l, fun p e he => ?_⟩
+  obtain ⟨e', h1, h2⟩ := m p e he
+  exact ⟨e', h1, by simpa using h2⟩
+
 /-- **`RandomlyRewireCrossLinks`, whole method, every stream of draws, every number of swaps**:
 for a simple undirected network on `N` nodes and duplicate-free disjoint node lists, the
 returned adjacency is simple, equals the input outside the two cross blocks (all links inside
